@@ -275,14 +275,19 @@ def runHs (ws : List String) : String :=
         let covered := match host with
           | some h => Usual.C08.checkName (Usual.C08.ipLit strict) sc.names h == .ok
           | none => false
-        let cfgC : Config := { Config.new [] with verifyCert := vc, verifyName := vn, verifyTime := vt }
-        let cfgS : Config := { Config.new [] with verifyClient := svc, verifyTime := svt }
+        -- the two configs are produced by the same setter calls as in the harness (do_hs)
+        let cfgC := runSetters ([.protocols (UInt32.ofNat cp)] ++ (if vc == 0 then [.noVerifyCert] else []) ++
+          (if vn == 0 then [.noVerifyName] else []) ++ (if vt == 0 then [.noVerifyTime] else [])) (Config.new [])
+        let cfgS := runSetters ([.protocols (UInt32.ofNat sp)] ++ (if svt == 0 then [.noVerifyTime] else []) ++
+          (if svc == 1 then [.verifyClient] else if svc == 2 then [.verifyClientOptional] else [])) (Config.new [])
         let p := Policy.ofConfigs cfgC cfgS host.isSome
           ⟨sc.ca == cca && sc.ca != 0 && sc.server, sc.timeValid⟩ covered
           (cc.map fun c => ⟨c.ca == sca && c.ca != 0 && !c.server, c.timeValid⟩)
         let pb := verBits perm
-        if established p pb (verBits cp) (verBits sp) then
-          let ver := match negotiated pb (verBits cp) (verBits sp) with
+        let cb := verBits cfgC.protocols.toNat
+        let sb := verBits cfgS.protocols.toNat
+        if established p pb cb sb then
+          let ver := match negotiated pb cb sb with
             | some v => verName v | none => "?"
           let s := UInt64.ofNat seed
           let h1 := hashStream n (s ^^^ 0xC2500000C2500000) 0 0 0xcbf29ce484222325
